@@ -373,7 +373,12 @@ def analyse_explicit(paths, name_idx, value_idx):
             continue        # error exits and the end of the element list are not paths of one explicit property
         res["paths"] += 1
         st = [(k, a) for k, a in sinks if k == "store" and contains(a[value_idx], ("in", "value"))]
+        cond_st = [(k, a) for k, a in sinks if k == "store_if_absent" and contains(a[value_idx], ("in", "value"))]
         pf = presence_facts(fs)
+        if cond_st and not st:
+            # `entry(name).or_insert(value)`: stored only if nothing is there — a decision on presence
+            pf = list(pf) + ["entry(..).or_insert(value)"]
+            st = cond_st
         if st:
             res["stores"] += 1
         else:
@@ -409,7 +414,8 @@ def explicit_xml_reader(prog):
              (re.compile(r"ConvertVariant::try_convert$"), const_prim(sym.var(sym.OK, ("in", "value")))),
              (re.compile(r"DecodeOptions::<'db>::use_reflection$"), const_prim(C(True))),
              (re.compile(r"deserializer_core::XmlEventReader::<R>::"), opaque_prim),
-             (re.compile(r"HashMap::<K, V, S(, A)?>::insert$|VacantEntry::<'a, K, V(, A)?>::insert$|OccupiedEntry::<'a, K, V(, A)?>::insert$|Entry::<'a, K, V(, A)?>::or_insert(_with)?$"), sink_prim("store"))]
+             (re.compile(r"VacantEntry::<'a, K, V(, A)?>::insert$|Entry::<'a, K, V(, A)?>::or_insert(_with)?$"), sink_prim("store_if_absent")),
+             (re.compile(r"HashMap::<K, V, S(, A)?>::insert$|OccupiedEntry::<'a, K, V(, A)?>::insert$"), sink_prim("store"))]
     env = {p["lid"]: ("in", p["name"]) for p in fn.params}
     I, val, ex = wire.run_region(prog, fn.body, env, prims, depth=5, opaque={PERFORM})
     loops = []
@@ -430,7 +436,7 @@ def explicit_xml_reader(prog):
     paths = summarise(outer[0][2])
     normp = []
     for fs, sinks, x, v in paths:
-        ns = [((k, (a[0], a[0], a[1])) if k == "store" and len(a) == 2 else (k, a)) for k, a in sinks]
+        ns = [((k, (a[0], a[0], a[1])) if k in ("store", "store_if_absent") and len(a) == 2 else (k, a)) for k, a in sinks]
         normp.append((fs, ns, x, v))
     return fn, analyse_explicit(normp, 1, 2)
 
